@@ -562,4 +562,266 @@ theorem stepCluster_decides (cfg : Cfg) (opt : Problem → OptOut) (hc : OptCont
             rw [this]
             exact hv
 
+/-! ## the invariant of the per-cluster loop -/
+
+/-- hypotheses on the clustering: distinct positions inside the table, clusters pairwise disjoint
+(`groupby(['frame', 'cluster'])` partitions the rows) -/
+structure ClustersOK (n : Nat) (clusters : List (List Nat)) : Prop where
+  nodup : ∀ cl ∈ clusters, cl.Nodup
+  inRange : ∀ cl ∈ clusters, ∀ i ∈ cl, i < n
+  disjoint : clusters.Pairwise List.Disjoint
+
+/-- THE LOOP INVARIANT (`t0` = input table, `done` = clusters processed so far, `t` = current
+table): the table is well formed, every processed cluster is decided RELATIVE TO THE INPUT, and
+every row of no processed cluster still equals its input row. -/
+structure RunInv (cfg : Cfg) (opt : Problem → OptOut) (n : Nat) (t0 : Table)
+    (done : List (List Nat)) (t : Table) : Prop where
+  ok : TableOK cfg n t
+  decided : ∀ cl ∈ done, ClFailed t0 t cl ∨ ClFitted cfg opt t0 t cl
+  pending : ∀ i, (∀ cl ∈ done, i ∉ cl) → RowEq t0 t i
+
+theorem runInv_init (cfg : Cfg) (opt : Problem → OptOut) (n : Nat) (t : Table)
+    (hT : TableOK cfg n t) : RunInv cfg opt n t [] t :=
+  ⟨hT, fun _ h => by simp at h, fun i _ => RowEq.refl t i⟩
+
+/-- preservation: one more cluster, disjoint from those already processed -/
+theorem stepCluster_preserves_inv (cfg : Cfg) (opt : Problem → OptOut) (hc : OptContract opt)
+    (hsm : cfg.specs.length = cfg.modes.length) (n : Nat) (t0 t t1 : Table)
+    (done : List (List Nat)) (tag : Nat) (cl : List Nat) (hinv : RunInv cfg opt n t0 done t)
+    (hnd : cl.Nodup) (hin : ∀ i ∈ cl, i < n) (hdis : ∀ d ∈ done, List.Disjoint cl d)
+    (hstep : stepCluster cfg opt t tag cl = .ok t1) : RunInv cfg opt n t0 (cl :: done) t1 := by
+  obtain ⟨hT1, hout, hdec⟩ := stepCluster_decides cfg opt hc hsm n t t1 tag cl hinv.ok hnd hin hstep
+  have hpend : ∀ i ∈ cl, RowEq t0 t i := fun i hi =>
+    hinv.pending i (fun d hd hid => hdis d hd hi hid)
+  refine ⟨hT1, fun d hd => ?_, fun i hi => ?_⟩
+  · rcases List.mem_cons.mp hd with rfl | hd
+    · rcases hdec with h | h
+      · exact Or.inl (clFailed_congr (fun i hi => (hpend i hi).symm) (fun i _ => RowEq.refl _ i) h)
+      · exact Or.inr (clFitted_congr (fun i hi => (hpend i hi).symm) (fun i _ => RowEq.refl _ i) h)
+    · have hrows : ∀ i ∈ d, RowEq t t1 i := fun i hi => hout i (fun hicl => hdis d hd hicl hi)
+      rcases hinv.decided d hd with h | h
+      · exact Or.inl (clFailed_congr (fun i _ => RowEq.refl _ i) hrows h)
+      · exact Or.inr (clFitted_congr (fun i _ => RowEq.refl _ i) hrows h)
+  · exact (hinv.pending i (fun d hd => hi d (List.mem_cons_of_mem _ hd))).trans
+      (hout i (hi cl (List.mem_cons_self ..)))
+
+/-- the invariant holds after the whole loop `refineClusters` -/
+theorem refineClusters_inv (cfg : Cfg) (opt : Problem → OptOut) (hc : OptContract opt)
+    (hsm : cfg.specs.length = cfg.modes.length) (n : Nat) (t0 : Table) :
+    ∀ (clusters done : List (List Nat)) (t t' : Table) (tag : Nat),
+      RunInv cfg opt n t0 done t → ClustersOK n clusters →
+      (∀ cl ∈ clusters, ∀ d ∈ done, List.Disjoint cl d) →
+      refineClusters cfg opt t tag clusters = .ok t' →
+      RunInv cfg opt n t0 (clusters.reverse ++ done) t'
+  | [], done, t, t', _, hinv, _, _, h => by
+    simp only [refineClusters, Except.ok.injEq] at h
+    subst h
+    simpa using hinv
+  | cl :: rest, done, t, t', tag, hinv, hcl, hdis, h => by
+    unfold refineClusters at h
+    split at h
+    · simp at h
+    · rename_i t1 hs
+      have hpw := List.pairwise_cons.mp hcl.disjoint
+      have h1 := stepCluster_preserves_inv cfg opt hc hsm n t0 t t1 done tag cl hinv
+        (hcl.nodup cl (by simp)) (hcl.inRange cl (by simp)) (hdis cl (by simp)) hs
+      have := refineClusters_inv cfg opt hc hsm n t0 rest (cl :: done) t1 t' (tag + 1) h1
+        ⟨fun c hc' => hcl.nodup c (by simp [hc']), fun c hc' => hcl.inRange c (by simp [hc']),
+          hpw.2⟩
+        (fun c hc' d hd => by
+          rcases List.mem_cons.mp hd with rfl | hd
+          · exact fun a ha hb => hpw.1 c hc' hb ha
+          · exact hdis c (by simp [hc']) d hd) h
+      simpa using this
+
+/-- level 'cluster' (no parameter in mode `global`): `refineCtl` is the per-cluster loop -/
+theorem refineCtl_inv (cfg : Cfg) (opt : Problem → OptOut) (hc : OptContract opt)
+    (hsm : cfg.specs.length = cfg.modes.length)
+    (hlevel : cfg.modes.any (fun m => decide (m = 2)) = false) (n : Nat) (t t' : Table)
+    (clusters : List (List Nat)) (hT : TableOK cfg n t) (hcl : ClustersOK n clusters)
+    (hrun : refineCtl cfg opt t clusters = .ok t') : RunInv cfg opt n t clusters.reverse t' := by
+  unfold refineCtl at hrun
+  simp only [hlevel, Bool.false_eq_true, if_false] at hrun
+  simpa using refineClusters_inv cfg opt hc hsm n t clusters [] t t' 0 (runInv_init cfg opt n t hT)
+    hcl (fun _ _ d hd => by simp at hd) hrun
+
+/-! ## (b), (c), (d): the property's sentences about the OUTPUT TABLE -/
+
+/-- the optimiser never reports a NaN `rms_dev` together with a success -/
+def FiniteDev (opt : Problem → OptOut) : Prop := ∀ pb x, opt pb ≠ .ok x none
+
+theorem costOf_ne_val_of_nan {dev : Option Rat} (h : costOf dev = Cost.nan) : dev = none := by
+  cases dev <;> simp [costOf] at h ⊢
+
+/-- (b) "every successfully fitted feature stays within all requested and default bounds", about
+the returned table, ASSUMING the optimiser's contract: after the whole run, every row of a cluster
+whose cost is a number satisfies the bound predicate `RowFitOK` on ITS OWN row — new values against
+the values the same row had in the INPUT table. -/
+theorem refine_rows_within_bounds (cfg : Cfg) (opt : Problem → OptOut) (hc : OptContract opt)
+    (hsm : cfg.specs.length = cfg.modes.length)
+    (hlevel : cfg.modes.any (fun m => decide (m = 2)) = false) (n : Nat) (t t' : Table)
+    (clusters : List (List Nat)) (hT : TableOK cfg n t) (hcl : ClustersOK n clusters)
+    (hrun : refineCtl cfg opt t clusters = .ok t') (cl : List Nat) (hmem : cl ∈ clusters)
+    (i : Nat) (hi : i ∈ cl) (r : Rat) (hcost : t'.cost[i]? = some (Cost.val r)) :
+    RowFitOK cfg t t' cl i := by
+  have hinv := refineCtl_inv cfg opt hc hsm hlevel n t t' clusters hT hcl hrun
+  rcases hinv.decided cl (by simpa using hmem) with h | ⟨dev, _, h⟩
+  · have := (h i hi).1
+    rw [hcost] at this
+    cases this
+  · exact (h i hi).2
+
+/-- (c) "the affected features keep their input values and get cost NaN", about the returned
+table.  TRUE VERSION: as phrased ("cost NaN ⇒ input values") it is false of the model and of the
+code — a NaN `rms_dev` passes `rms_dev > max_rms_dev` and is written as the cost of a SUCCESSFUL
+fit (`nan_cost_after_success_witness`).  With `FiniteDev` (no NaN deviation reported with a
+success): every row of a cluster whose output cost is NaN has exactly its input value in every
+parameter column — whatever clusters were processed before and after it (they are disjoint from
+its own). -/
+theorem refine_failed_rows_keep_input (cfg : Cfg) (opt : Problem → OptOut) (hc : OptContract opt)
+    (hfd : FiniteDev opt) (hsm : cfg.specs.length = cfg.modes.length)
+    (hlevel : cfg.modes.any (fun m => decide (m = 2)) = false) (n : Nat) (t t' : Table)
+    (clusters : List (List Nat)) (hT : TableOK cfg n t) (hcl : ClustersOK n clusters)
+    (hrun : refineCtl cfg opt t clusters = .ok t') (cl : List Nat) (hmem : cl ∈ clusters)
+    (i : Nat) (hi : i ∈ cl) (hcost : t'.cost[i]? = some Cost.nan) :
+    ∀ j, cell t' j i = cell t j i := by
+  have hinv := refineCtl_inv cfg opt hc hsm hlevel n t t' clusters hT hcl hrun
+  rcases hinv.decided cl (by simpa using hmem) with h | ⟨dev, ⟨pb, x, hd⟩, h⟩
+  · exact (h i hi).2
+  · have := (h i hi).1
+    rw [hcost] at this
+    have hn := costOf_ne_val_of_nan (Option.some.inj this).symm
+    subst hn
+    exact absurd hd (hfd pb x)
+
+/-- rows of NO cluster are returned as they came (cost included) -/
+theorem refine_unclustered_rows_unchanged (cfg : Cfg) (opt : Problem → OptOut)
+    (hc : OptContract opt) (hsm : cfg.specs.length = cfg.modes.length)
+    (hlevel : cfg.modes.any (fun m => decide (m = 2)) = false) (n : Nat) (t t' : Table)
+    (clusters : List (List Nat)) (hT : TableOK cfg n t) (hcl : ClustersOK n clusters)
+    (hrun : refineCtl cfg opt t clusters = .ok t') (i : Nat) (hi : ∀ cl ∈ clusters, i ∉ cl) :
+    RowEq t t' i :=
+  (refineCtl_inv cfg opt hc hsm hlevel n t t' clusters hT hcl hrun).pending i
+    (fun cl h => hi cl (by simpa using h))
+
+/-- (d) no third case, no row lost or added.  When the clusters cover the table, the returned
+table has the same `n` rows in the same columns, and EVERY row either has a numeric cost and
+satisfies the bound predicate of (b), or has cost NaN and its input values (c). -/
+theorem refine_every_row_decided (cfg : Cfg) (opt : Problem → OptOut) (hc : OptContract opt)
+    (hfd : FiniteDev opt) (hsm : cfg.specs.length = cfg.modes.length)
+    (hlevel : cfg.modes.any (fun m => decide (m = 2)) = false) (n : Nat) (t t' : Table)
+    (clusters : List (List Nat)) (hT : TableOK cfg n t) (hcl : ClustersOK n clusters)
+    (hcover : ∀ i, i < n → ∃ cl ∈ clusters, i ∈ cl)
+    (hrun : refineCtl cfg opt t clusters = .ok t') :
+    TableOK cfg n t' ∧ t'.cols.length = t.cols.length ∧
+    ∀ i, i < n →
+      (∃ r, t'.cost[i]? = some (Cost.val r) ∧ ∃ cl ∈ clusters, i ∈ cl ∧ RowFitOK cfg t t' cl i) ∨
+      (t'.cost[i]? = some Cost.nan ∧ ∀ j, cell t' j i = cell t j i) := by
+  have hinv := refineCtl_inv cfg opt hc hsm hlevel n t t' clusters hT hcl hrun
+  refine ⟨hinv.ok, by rw [hinv.ok.2.1, hT.2.1], fun i hi => ?_⟩
+  obtain ⟨cl, hmem, hicl⟩ := hcover i hi
+  rcases hinv.decided cl (by simpa using hmem) with h | ⟨dev, ⟨pb, x, hd⟩, h⟩
+  · exact Or.inr (h i hicl)
+  · cases dev with
+    | none => exact absurd hd (hfd pb x)
+    | some r => exact Or.inl ⟨r, (h i hicl).1, cl, hmem, hicl, (h i hicl).2⟩
+
+/-! ## a concrete optimiser satisfying the contract; witness and non-vacuity -/
+
+/-- a point of a feasible interval -/
+def clampPt (b : B × B) : Rat :=
+  match b.1, b.2 with
+  | some l, _ => l
+  | none, some h => h
+  | none, none => 0
+
+/-- reports failure on infeasible bounds, otherwise a point inside them with deviation `dev` -/
+def clampOpt (dev : Option Rat) (pb : Problem) : OptOut :=
+  if infeasible pb.bounds then .fail else .ok (pb.bounds.map clampPt) dev
+
+theorem clampOpt_contract (dev : Option Rat) : OptContract (clampOpt dev) := by
+  constructor
+  · intro pb x d h
+    unfold clampOpt at h
+    split at h
+    · cases h
+    · rename_i hf
+      simp only [OptOut.ok.injEq] at h
+      rw [← h.1, List.forall₂_map_left_iff, List.forall₂_same]
+      intro b hb
+      have hb' : ¬ (match b.1, b.2 with
+          | some l, some h => decide (h < l)
+          | _, _ => false) = true := fun hbad =>
+        hf (List.any_eq_true.mpr ⟨b, hb, hbad⟩)
+      obtain ⟨l, u⟩ := b
+      cases l <;> cases u <;> simp_all [Within, inB, clampPt]
+  · intro pb d h
+    unfold clampOpt at h
+    split at h <;> cases h
+
+theorem clampOpt_finiteDev (r : Rat) : FiniteDev (clampOpt (some r)) := by
+  intro pb x h
+  unfold clampOpt at h
+  split at h <;> cases h
+
+/-- WITNESS for the extra hypothesis of (c): an optimiser satisfying the contract that reports a
+NaN deviation.  The fit of the one feature SUCCEEDS (its position is moved from (15, 30) to
+(10, 25)) and the row nevertheless carries `cost = NaN`. -/
+theorem nan_cost_after_success_witness :
+    OptContract (clampOpt none) ∧
+    refineCtl demoCfg (clampOpt none)
+        { cols := [[some 0], [some 180], [some 15], [some 30], [some 2]], cost := [Cost.unset] }
+        [[0]] =
+      .ok { cols := [[some (1/10000000)], [some (1/10000000)], [some 10], [some 25], [some 2]],
+            cost := [Cost.nan] } :=
+  ⟨clampOpt_contract none, by decide +kernel⟩
+
+/-- a 3-row table: rows 0 and 2 form a dimer inside the 40x50 image, row 1 is a single whose start
+(x = 70) is outside the image -/
+def rowsTable : Table :=
+  { cols := [[some 0, some 0, some 0], [some 180, some 180, some 170],
+             [some 15, some 15, some 18], [some 30, some 70, some 33],
+             [some 2, some 2, some 2]],
+    cost := [Cost.unset, Cost.unset, Cost.unset] }
+
+/-- NON-VACUITY of (b)-(d): every hypothesis holds for the dimer `[0, 2]` + single `[1]` under
+`clampOpt (some 1/100)`; the dimer succeeds (rows 0 and 2 written, cost 1/100), the single fails
+(row 1 keeps its input, cost NaN). -/
+example :
+    OptContract (clampOpt (some (1/100))) ∧ FiniteDev (clampOpt (some (1/100))) ∧
+    demoCfg.specs.length = demoCfg.modes.length ∧
+    demoCfg.modes.any (fun m => decide (m = 2)) = false ∧
+    TableOK demoCfg 3 rowsTable ∧ ClustersOK 3 [[0, 2], [1]] ∧
+    (∀ i, i < 3 → ∃ cl ∈ [[0, 2], [1]], i ∈ cl) ∧
+    refineCtl demoCfg (clampOpt (some (1/100))) rowsTable [[0, 2], [1]] =
+      .ok { cols := [[some (1/10000000), some 0, some (1/10000000)],
+                     [some (1/10000000), some 180, some (1/10000000)],
+                     [some 10, some 15, some 13], [some 25, some 70, some 28],
+                     [some 2, some 2, some 2]],
+            cost := [Cost.val (1/100), Cost.nan, Cost.val (1/100)] } := by
+  refine ⟨clampOpt_contract _, clampOpt_finiteDev _, by decide, by decide, ?_, ?_, ?_, ?_⟩
+  · refine ⟨by decide, by decide, ?_⟩
+    intro c hc
+    simp [rowsTable] at hc
+    rcases hc with rfl | rfl | rfl | rfl | rfl <;> rfl
+  · refine ⟨by decide, by decide, ?_⟩
+    simp [List.Disjoint]
+  · decide
+  · decide +kernel
+
+/-- … and the conclusion of (d) on it, row by row -/
+example (t' : Table)
+    (h : refineCtl demoCfg (clampOpt (some (1/100))) rowsTable [[0, 2], [1]] = .ok t') :
+    ∀ i, i < 3 →
+      (∃ r, t'.cost[i]? = some (Cost.val r) ∧
+        ∃ cl ∈ [[0, 2], [1]], i ∈ cl ∧ RowFitOK demoCfg rowsTable t' cl i) ∨
+      (t'.cost[i]? = some Cost.nan ∧ ∀ j, cell t' j i = cell rowsTable j i) :=
+  (refine_every_row_decided demoCfg _ (clampOpt_contract _) (clampOpt_finiteDev _) (by decide)
+    (by decide) 3 rowsTable t' [[0, 2], [1]]
+    ⟨by decide, by decide, by
+      intro c hc
+      simp [rowsTable] at hc
+      rcases hc with rfl | rfl | rfl | rfl | rfl <;> rfl⟩
+    ⟨by decide, by decide, by simp [List.Disjoint]⟩ (by decide) h).2.2
+
 end TrackpyV.Bounds
